@@ -175,6 +175,7 @@ def index_replay(ctx, rng):
     TYPE = {'FH': 128, 'FT': 129, 'TH': 130, 'TT': 131, 'RH': 132, 'RT': 133, 'TAB': 34, 'MISC': 232, 'MARK': 137, 'UNK': 7}
     MAKE = {'FH': GLL.file_head, 'FT': GLL.file_tail, 'TH': GLL.tape_head, 'TT': GLL.tape_tail, 'RH': GLL.reel_head, 'RT': GLL.reel_tail}
     nrow = 0
+    ntab = [0]
     for row in rows:
         nrow += 1
         if ctx.quick and nrow % 2 and len(row['passes']) == 0:
@@ -192,7 +193,8 @@ def index_replay(ctx, rng):
                     passx = {}
             elif k == 'TAB':
                 # the three table record types (job identification 32, wellsite data 34, tool string info 39), each with its table name
-                ttype = rng.choice([34, 34, 32, 39])
+                ntab[0] += 1
+                ttype = (34, 32, 39)[ntab[0] % 3]          # every table type in turn (not drawn: each place of a table sees each type)
                 tname = rng.choice([b'CONS', b'TOOL', b'OUTP', b'PRES', b'FILM'])
                 tab_at[pos] = (ttype, tname)
                 lrs.append(bytes([ttype, 0]) + b'IA\x04\x00TYPE    ' + tname + b'\x00A\x04\x00MNEM    BS  ')
